@@ -97,6 +97,8 @@ const HASH_OK: [&str; 8] = ["::new", "::insert", "::get", "::contains", "::conta
 
 pub fn c16(cx: &Cx) -> i32 {
     let mut rep = cx.report("C16");
+    // tokens that do not parse as what they are meant to be make the parse_quote! / parse2 that consumes them panic
+    rep.import(&crate::props_hyg::parse_report(cx, "C16"), &["TP-parse"]);
     // ---------------- MIR rules
     let facts = match std::env::var("MIRFACTS").ok().filter(|p| std::path::Path::new(p).exists()).map(|p| Facts::load(&p)) {
         Some(Ok(f)) => Some(f),
